@@ -428,7 +428,7 @@ pub struct Env {
 
 impl Env {
     pub fn new(repo: &Path, tag: &str) -> Self {
-        let dir = std::env::temp_dir().join(format!("vcheck-{}-{}", tag, std::process::id()));
+        let dir = crate::ctx::run_dir().join(format!("env-{}-{}", tag, std::process::id()));
         let _ = std::fs::remove_dir_all(&dir);
         std::fs::create_dir_all(&dir).unwrap_or_else(|e| crate::ctx::machinery(&format!("temp dir: {}", e)));
         Env {
